@@ -62,6 +62,12 @@ func start(t *testing.T, prop, rule string) *H {
 		})
 		return h
 	}
+	if env.Light {
+		h.R.Assume("a second process runs this check built for GOARCH=386 (int and uint are 32 bits wide) on a lighter workload: large enumerations sampled at a prime stride, rapid counts divided by 4, another seed; its cases count as evaluations, not as additional distinct cases")
+	}
+	if env.Phase == "plain" {
+		h.R.Assume("a second process runs the sequential families and the retention runs of this check in a build without the race detector (under -race sync.Pool drops a quarter of its entries at random, so pooled state never grows old there)")
+	}
 	t.Cleanup(func() {
 		if err := h.R.WritePart(); err != nil {
 			t.Errorf("HARNESS-ERROR writing evidence part: %v", err)
@@ -153,11 +159,11 @@ func (q quiet) Fatalf(format string, args ...any) {
 	q.T.Logf("[rapid-fatal] "+format, args...)
 	runtime.Goexit()
 }
-func (q quiet) Error(args ...any)  { q.failed.Store(true); q.T.Log(args...) }
-func (q quiet) Fatal(args ...any)  { q.failed.Store(true); q.T.Log(args...); runtime.Goexit() }
-func (q quiet) FailNow()           { q.failed.Store(true) }
-func (q quiet) Fail()              { q.failed.Store(true) }
-func (q quiet) Failed() bool       { return q.failed.Load() }
+func (q quiet) Error(args ...any) { q.failed.Store(true); q.T.Log(args...) }
+func (q quiet) Fatal(args ...any) { q.failed.Store(true); q.T.Log(args...); runtime.Goexit() }
+func (q quiet) FailNow()          { q.failed.Store(true) }
+func (q quiet) Fail()             { q.failed.Store(true) }
+func (q quiet) Failed() bool      { return q.failed.Load() }
 
 // Enum drives check over a complete, index-addressable enumeration of n cases
 // on all cores. fast is the bulk evaluator (returns false on a suspected
@@ -175,6 +181,14 @@ func Enum[C any](h *H, kind string, n int, decode func(int) C, fast func(i int) 
 	var firstErr error
 	var next int64
 	const chunk = 1024
+	// the light (32-bit) process samples large spaces: every stride-th index, stride prime so that it
+	// does not lock onto one digit pattern of a mixed-radix space, offset moving with the seed
+	stride, off := 1, 0
+	if env.Light && n > lightCap {
+		stride = nextPrime(n / lightCap)
+		off = int(env.Seed % int64(stride))
+		h.R.Count(fmt.Sprintf("light process: %s space sampled at stride %d", kind, stride), int64(n/stride))
+	}
 	for w := 0; w < workers; w++ {
 		wg.Add(1)
 		go func() {
@@ -189,6 +203,9 @@ func Enum[C any](h *H, kind string, n int, decode func(int) C, fast func(i int) 
 					hi = n
 				}
 				for i := lo; i < hi; i++ {
+					if stride > 1 && i%stride != off {
+						continue
+					}
 					var err error
 					if fast == nil {
 						// the single-case check is the evaluator: its verdict stands even if a
@@ -231,6 +248,26 @@ func Enum[C any](h *H, kind string, n int, decode func(int) C, fast func(i int) 
 		h.t.Fatalf("HARNESS-ERROR %s/%s: bulk evaluator flagged index %d but the single-case check passes", h.R.Prop, kind, first)
 	}
 	h.fail(kind, c, err)
+}
+
+const lightCap = 150000
+
+func nextPrime(n int) int {
+	if n < 2 {
+		return 2
+	}
+	for ; ; n++ {
+		p := true
+		for d := 2; d*d <= n; d++ {
+			if n%d == 0 {
+				p = false
+				break
+			}
+		}
+		if p {
+			return n
+		}
+	}
 }
 
 var errFlagged = fmt.Errorf("flagged by the bulk evaluator")
